@@ -59,6 +59,7 @@ type c14SpendWorld struct {
 	spent      bool // reference: the client has to believe "spent"
 	done       bool
 	reorgSeen  bool // a Reorg was delivered earlier
+	finalAtReg bool // see c14Client.finalAtReg
 }
 
 func (w *c14SpendWorld) tipOff() int { return len(w.blocks) }
@@ -129,6 +130,9 @@ func (w *c14SpendWorld) register(hint uint32) {
 	w.registered = true
 	vAssert(reg.Height == w.tip(), "registration reports a height that is not the tip")
 	incl := w.incl()
+	if incl != 0 {
+		w.finalAtReg = w.h0+uint32(incl)+w.limit <= w.tip()
+	}
 	if d := reg.HistoricalDispatch; d != nil {
 		vReach("spend-historical-rescan")
 		vAssert(d.EndHeight == w.tip(), "historical rescan does not end at the tip")
@@ -246,7 +250,7 @@ func (w *c14SpendWorld) check(kind int, disconnectedIncl bool) {
 			vAssert(nDone == 1 && mature && !w.done, "Done delivered although the spending block is not exactly at the reorg safety limit")
 			w.done = true
 		} else {
-			vAssert(w.done || !mature, "spending block reached the reorg safety limit but Done was not delivered")
+			vAssert(w.done || w.finalAtReg || !mature, "spending block reached the reorg safety limit but Done was not delivered")
 		}
 	}
 
